@@ -150,6 +150,31 @@ fn multiset<T: Ord>(v: impl IntoIterator<Item = T>) -> BTreeMap<T, usize> {
 
 /// One glob walk with link and depth behaviour; the reference is computed from the in-memory
 /// world. Ok(None): not applicable (constructor refuses the bounds, prefix through a link).
+/// The per-component programs a glob walk prunes with (hook H2), as automata: a directory whose
+/// k-th component (counted from the directory given to the walk, invariant prefix included) is not
+/// matched by the k-th program is discarded as a tree - it is still produced as residue, but
+/// nothing beneath it is read. Entries deeper than the programs reach are never pruned.
+pub struct Pruner {
+    programs: Vec<refmodel::automata::Dfa>,
+}
+
+impl Pruner {
+    pub fn of(glob: &Glob<'_>) -> Option<Pruner> {
+        let texts = guard(|| glob.verif_walk_component_texts()).ok()?;
+        let programs: Vec<_> = texts.iter().filter_map(|t| refmodel::automata::Dfa::new_search(t).ok()).collect();
+        if programs.len() != texts.len() {
+            return None;
+        }
+        Some(Pruner { programs })
+    }
+
+    /// `comps`: the components of an entry below the given directory.
+    pub fn mismatch(&self, comps: &[String]) -> bool {
+        let k = comps.len();
+        k >= 1 && k <= self.programs.len() && !self.programs[k - 1].accepts(comps[k - 1].as_str())
+    }
+}
+
 pub fn run_depth_walk(
     place: &Place,
     world: &World,
@@ -191,10 +216,29 @@ pub fn run_depth_walk(
         let follow = link == LinkBehavior::ReadTarget;
         let mut expected = vec![];
         let mut expected_errors = vec![];
+        // directories the walker prunes (their component fails its program): nothing beneath
+        // them is read, so neither entries nor error items come from there
+        let pruner = Pruner::of(&glob);
+        let mut cut: Vec<Vec<String>> = vec![];
         if let Some(start) = &start {
             for it in fsworld::traverse(world, start, follow) {
                 let mut full: Vec<String> = comps.iter().map(|s| s.to_string()).collect();
                 full.extend(it.rel().iter().cloned());
+                if cut.iter().any(|c| full.len() > c.len() && full[..c.len()] == c[..]) {
+                    continue;
+                }
+                if let RItem::Entry { kind: fsworld::EKind::Dir, .. } = &it {
+                    // a directory above the minimum depth is not produced by the underlying
+                    // traversal at all, so the glob walker never sees it and cannot prune it
+                    let seen_by_walker = it.rel().len() >= min.saturating_sub(pivot);
+                    if seen_by_walker && pruner.as_ref().map_or(false, |p| p.mismatch(&full)) {
+                        cut.push(full.clone());
+                    }
+                }
+                if matches!(it, RItem::Err { kind: ErrKind::Io, .. }) && cut.contains(&full) {
+                    // the unreadable directory is pruned before it is opened
+                    continue;
+                }
                 let depth = full.len();
                 let text = full.join("/");
                 match it {
@@ -478,10 +522,36 @@ fn expected_sequence(
     layers: &[Layer],
     history: &History,
     models: &BTreeMap<usize, NotModel>,
-) -> Vec<SeqItem> {
+) -> Option<Vec<SeqItem>> {
     let glob = match base {
         BaseWalk::Glob(g) => Glob::new(g).ok(),
         BaseWalk::Path => None,
+    };
+    // a glob with an invariant prefix is walked from the directory the prefix names: the
+    // reference traversal starts there (cases where the prefix does not name a real directory of
+    // the world are left out: what walkdir reports for a missing or non-directory root is not
+    // part of the property)
+    let prefix_comps: Vec<String> = glob
+        .as_ref()
+        .map(|g| g.clone().partition().0)
+        .map(|p| p.components().map(|c| c.as_os_str().to_string_lossy().to_string()).collect())
+        .unwrap_or_default();
+    let start: Vec<usize> = if prefix_comps.is_empty() {
+        vec![]
+    }
+    else {
+        let comps: Vec<&str> = prefix_comps.iter().map(|s| s.as_str()).collect();
+        let path = fsworld::find(world, &comps)?;
+        // every directory above the traversal root must be readable, or the root cannot be reached
+        for k in 0..path.len() {
+            if !matches!(fsworld::node_at(world, &path[..k]).map(|n| &n.kind), Some(FKind::Dir { readable: true, .. })) {
+                return None;
+            }
+        }
+        match fsworld::node_at(world, &path).map(|n| &n.kind) {
+            Some(FKind::Dir { .. }) => path,
+            _ => return None,
+        }
     };
     let unreadable_root = matches!(&world.root.kind, FKind::Dir { readable: false, .. });
     let mut unreadable: BTreeSet<String> = BTreeSet::new();
@@ -499,8 +569,9 @@ fn expected_sequence(
     }
     let mut out = vec![];
     let mut cut: Vec<String> = vec![];
-    for it in fsworld::traverse(world, &[], follow) {
-        let rel = it.rel().join("/");
+    for it in fsworld::traverse(world, &start, follow) {
+        let at_traversal_root = it.rel().is_empty();
+        let rel = prefix_comps.iter().cloned().chain(it.rel().iter().cloned()).collect::<Vec<_>>().join("/");
         let beneath = cut.iter().any(|d| is_beneath(&rel, d));
         match it {
             RItem::Entry { kind, .. } => {
@@ -526,7 +597,7 @@ fn expected_sequence(
                 }
                 let base_ok = glob.as_ref().map_or(true, |g| g.is_match(rel.as_str()));
                 if keep && base_ok {
-                    out.push(SeqItem { ok: true, optional: rel.is_empty() || unreadable.contains(&rel), rel, is_loop: false });
+                    out.push(SeqItem { ok: true, optional: at_traversal_root || unreadable.contains(&rel), rel, is_loop: false });
                 }
             },
             RItem::Err { kind, .. } => {
@@ -538,10 +609,10 @@ fn expected_sequence(
             },
         }
     }
-    out
+    Some(out)
 }
 
-fn compare_sequences(real: &[(bool, String, bool, usize)], expected: &[SeqItem]) -> Option<String> {
+fn compare_sequences(real: &[(bool, String, bool, usize)], expected: &[SeqItem], prefix_len: usize) -> Option<String> {
     let mut j = 0;
     for (i, r) in real.iter().enumerate() {
         loop {
@@ -566,12 +637,14 @@ fn compare_sequences(real: &[(bool, String, bool, usize)], expected: &[SeqItem])
         }
         j += 1;
     }
-    // error depth = number of components of the offending path
+    // error depth = number of components of the offending path below the root of the traversal
+    // (documented on WalkError::depth: "from the root directory of the traversal", which for a
+    // glob with an invariant prefix is the given directory joined with that prefix)
     for r in real {
         if !r.0 && r.1 != "<no path>" {
             let comps = r.1.split('/').filter(|c| !c.is_empty()).count();
-            if r.3 != comps {
-                return Some(format!("{} reports depth {} but its path has {} component(s)", show_real(r), r.3, comps));
+            if r.3 + prefix_len != comps {
+                return Some(format!("{} reports depth {} but its path has {} component(s) below the root of the traversal", show_real(r), r.3, comps.saturating_sub(prefix_len)));
             }
         }
     }
@@ -724,8 +797,14 @@ fn judge_fault_run(
         .enumerate()
         .filter_map(|(i, l)| if matches!(l, Layer::Not(..)) { NotModel::new(l).map(|m| (i, m)) } else { None })
         .collect();
-    let exp = expected_sequence(world, base, link == LinkBehavior::ReadTarget, layers, history, &models);
-    Ok(compare_sequences(&run.sequence, &exp).map(|p| {
+    let Some(exp) = expected_sequence(world, base, link == LinkBehavior::ReadTarget, layers, history, &models) else {
+        return Err("SKIP the invariant prefix does not name a directory of this world".to_string());
+    };
+    let prefix_len = match base {
+        BaseWalk::Glob(g) => Glob::new(g).map_or(0, |g| g.partition().0.components().count()),
+        BaseWalk::Path => 0,
+    };
+    Ok(compare_sequences(&run.sequence, &exp, prefix_len).map(|p| {
         // recorded finding: following a link to an unreadable directory yields one error item
         // WITHOUT a path instead of the link's entry and an error naming it
         let mut alt: Vec<SeqItem> = vec![];
@@ -752,7 +831,7 @@ fn judge_fault_run(
             }
             i += 1;
         }
-        let class = if used && compare_sequences(&run.sequence, &alt).is_none() { "CLASS:error-without-path " } else { "" };
+        let class = if used && compare_sequences(&run.sequence, &alt, prefix_len).is_none() { "CLASS:error-without-path " } else { "" };
         (format!("{}{}", class, p), run.sequence.clone(), exp)
     }))
 }
@@ -762,7 +841,8 @@ pub fn c20_worker(tier: Tier) -> i32 {
     let unreadable_ok = unsafe { libc::geteuid() } != 0 && std::env::var("WAXMC_NO_UNREADABLE").is_err();
     let scratch = Scratch::new();
     let worlds = fault_worlds(tier, unreadable_ok);
-    let bases = vec![BaseWalk::Path, BaseWalk::Glob("**".into()), BaseWalk::Glob("**/a".into())];
+    // the last one has an invariant prefix: the walk starts below the given directory
+    let bases = vec![BaseWalk::Path, BaseWalk::Glob("**".into()), BaseWalk::Glob("**/a".into()), BaseWalk::Glob("a/**".into())];
     let out = std::sync::Mutex::new(Vec::<String>::new());
     let outcomes = std::sync::Mutex::new(BTreeSet::<u64>::new());
     worlds.par_iter().for_each(|world| {
@@ -776,7 +856,12 @@ pub fn c20_worker(tier: Tier) -> i32 {
         let mut local = vec![];
         for base in &bases {
             for link in [LinkBehavior::ReadFile, LinkBehavior::ReadTarget] {
-                for (layers, history) in c20_stacks(world) {
+                let prefixed = matches!(base, BaseWalk::Glob(g) if g.starts_with("a/"));
+                for (si, (layers, history)) in c20_stacks(world).into_iter().enumerate() {
+                    // the prefixed walk is run with the plain stacks only
+                    if prefixed && si >= 7 {
+                        break;
+                    }
                     match guard(|| judge_fault_run(&place, world, base, link, &layers, &history)) {
                         Ok(Ok(None)) => {
                             bump(&mut c, "walks", 1);
@@ -808,6 +893,9 @@ pub fn c20_worker(tier: Tier) -> i32 {
                                 json!({"class": class, "key": format!("{} {:?} {} {:?} {:?}", world.describe(), base, link_name(link), layers, history), "msg": msg,
                                        "case": c20_case(world, base, link, &layers, &history)})
                             ));
+                        },
+                        Ok(Err(msg)) if msg.starts_with("SKIP") => {
+                            bump(&mut c, "skipped_prefix_not_a_directory", 1);
                         },
                         Ok(Err(msg)) | Err(msg) => {
                             lines.push(format!(
